@@ -134,6 +134,29 @@ def check_characters(ctx, rep, tier):
                         rep.finding('C03 layout=%s key=%s level=%s expected=%s got=%s' % (
                             name, kname, lvl, '|'.join(acc), show_out(ctx, got)),
                             'standard: %s; %s' % (ref['standard'], cell_desc(ctx, t, k, m, h)))
+        # Ctrl being mapped (mode = map, a Ctrl key held) takes a cell out of the level clauses above and, with Alt/AltGr
+        # also held, out of C09's; but "never something else" still holds there: whatever wins - the Ctrl mapping, the
+        # AltGr level or neither - the output is one of THIS key's characters or the control character of its letter
+        for kname, cell in ref['keys'].items():
+            if kname not in ctx.kc:
+                continue
+            k = ctx.kc[kname]
+            own = set()
+            for lv in ('base', 'shift', 'altgr', 'shift_altgr'):
+                own |= set(cell.get(lv) or [])
+            if '*any*' in own:
+                continue
+            ctrls = {chr(ord(c.upper()) & 0x1F) for c in own if len(c) == 1 and c.isascii() and c.isalpha()}
+            for m in range(512):
+                if not B.C(m) or (B.S(m) and B.G(m)):
+                    continue
+                got = t.get(k, m, B.MAP)
+                ok = got != PANIC and ((got < RAW_BASE and (chr(got) in own or chr(got) in ctrls)) or (got >= RAW_BASE and '*none*' in own))
+                rep.ob('ctrl-mapped cells stay on the key', 1, 1 if ok else 0)
+                if not ok:
+                    rep.finding('C03 layout=%s key=%s ctrl-mapped got=%s' % (name, kname, show_out(ctx, got)),
+                                'with Ctrl being mapped the key types something that is neither one of its own characters (%s) nor the control '
+                                'character of its letter; standard: %s; %s' % ('|'.join(sorted(own)), ref['standard'], cell_desc(ctx, t, k, m, B.MAP)))
         for kname in list(ref['keys'])[:1]:
             k = ctx.kc[kname]
             rep.sample({'layout': name, 'key': kname, 'reference': ref['keys'][kname],
